@@ -1,7 +1,7 @@
 (* Model/MwRt.v -- run-time support for the Gallina functions that tools/genmw generates from middleware.go
    (coq/Gen/MwSrc.v): the state a handler mutates, and the multi-valued Go primitives as total functions. *)
 Require Import Base.Bytes Gen.Tables Model.Util Model.Headers Model.Methods Model.Origins Model.Pattern Model.Radix
-  Model.Config Model.CfgRt Model.Serve.
+  Model.Netip Model.CfgErrors Model.Config Model.CfgRt Model.Serve Model.Mw.
 
 (* what the translated code mutates: the response header map (w.Header() / resHdrs), the local buffer map of
    handleCORSPreflight (buf), the status passed to w.WriteHeader, and whether the wrapped handler was invoked *)
@@ -39,3 +39,17 @@ Definition parse2 (s : bytes) : origin * bool :=
   end.
 
 Definition init_gst (pre : hmap) : gst := {| g_res := pre; g_buf := []; g_status := None; g_deleg := false |}.
+
+(* newInternalConfig / newConfig with their nil guards (config.go: `if cfg == nil { return nil, nil }`,
+   `if icfg == nil { return nil }`; tools/gencfg insists on exactly these guards) *)
+Definition newInternalConfig2 (ace_ok : bytes -> bool) (ip6 : bytes -> ipres) (is_psl : bytes -> bool) (c : option config)
+  : option icfg * option (etree cerr) :=
+  match c with
+  | None => (None, None)
+  | Some c => match new_internal_config ace_ok ip6 is_psl c with
+              | inl ic => (Some ic, None)
+              | inr e => (None, Some e)
+              end
+  end.
+Definition newConfig2 (ic : option icfg) : option config :=
+  match ic with Some ic => Some (new_config ic) | None => None end.
